@@ -227,6 +227,8 @@ func (app *App) checkHAReplicasRunning(local *mysql.Node) (replicasRunning bool,
 func (app *App) stateFirstRun() appState {
 	if !app.dcs.WaitConnected(app.config.DcsWaitTimeout) {
 		if app.doesMaintenanceFileExist() {
+			// leaving maintenance leads straight to the manager state, which needs the module
+			app.initializeOptimizationModule()
 			return stateMaintenance
 		}
 		return stateFirstRun
